@@ -254,3 +254,18 @@ pub fn single_pool(mode: &str, pool_size: u32, replicas: usize) -> Cfg {
     cfg.pools.push(PoolDef::simple("db", mode, vec![UserDef::new("app", "apppw", pool_size)], vec![ShardDef { id: "0".into(), database: "db".into(), servers, mirrors: vec![] }]));
     cfg
 }
+
+/// One pool "db" with one user "app" over `nshards` shards, each with a primary and `replicas` replicas.
+pub fn sharded_pool(mode: &str, pool_size: u32, nshards: usize, replicas: usize) -> Cfg {
+    let mut shards = Vec::new();
+    for s in 0..nshards {
+        let mut servers = vec![(format!("pg-s{}-p", s), 5432u16, "primary".to_string())];
+        for i in 0..replicas {
+            servers.push((format!("pg-s{}-r{}", s, i), 5432, "replica".to_string()));
+        }
+        shards.push(ShardDef { id: s.to_string(), database: format!("db_s{}", s), servers, mirrors: vec![] });
+    }
+    let mut cfg = Cfg::new();
+    cfg.pools.push(PoolDef::simple("db", mode, vec![UserDef::new("app", "apppw", pool_size)], shards));
+    cfg
+}
